@@ -248,7 +248,7 @@ func (Engine) RunOne(t *core.Tape, prop, tier string, info *core.RunInfo) *core.
 		case "replayed-second-deal":
 			e, err = dealer.Enc(i) // the second copy is produced at send time
 		case "sid-field-altered":
-			plain.Sid = t.Bytes("byz.val", len(plain.Sid))
+			plain.Sid = t.OtherBytes("byz.val", plain.Sid, len(plain.Sid))
 			e, err = dealer.Custom(i, plain, nil, nil)
 		case "garbage-plaintext":
 			raw := t.Bytes("byz.val", t.Intn("byz.deal", 200))
@@ -725,7 +725,7 @@ func (Engine) RunOne(t *core.Tape, prop, tier string, info *core.RunInfo) *core.
 				va.SignResp(r, privs[b])
 				name = "spoofed-index"
 			case 3:
-				r = &Resp{Sid: t.Bytes("byz.val", len(realSid)), Index: uint32(b), Approved: true, auth: false}
+				r = &Resp{Sid: t.OtherBytes("byz.val", realSid, len(realSid)), Index: uint32(b), Approved: true, auth: false}
 				va.SignResp(r, privs[b])
 				name = "wrong-session-id"
 			case 4:
